@@ -51,10 +51,10 @@ Proof. exact push_wf. Qed.
 
 (* absent nullable -> null, absent required -> error (end of record) *)
 Example C11_absent :
-  finish_record [({| m_name := b "a"; m_nullable := true |}, BdPrim I32 (Some []) []);
-                 ({| m_name := b "r"; m_nullable := false |}, BdPrim I32 None [])] [false; false] = Err /\
-  finish_record [({| m_name := b "a"; m_nullable := true |}, BdPrim I32 (Some []) [])] [false]
-  = Ok [({| m_name := b "a"; m_nullable := true |}, BdPrim I32 (Some [0%N]) [0%Z])].
+  finish_record [({| m_name := b "a"; m_nullable := true |}, BdPrim (PInt I32) (Some []) []);
+                 ({| m_name := b "r"; m_nullable := false |}, BdPrim (PInt I32) None [])] [false; false] = Err /\
+  finish_record [({| m_name := b "a"; m_nullable := true |}, BdPrim (PInt I32) (Some []) [])] [false]
+  = Ok [({| m_name := b "a"; m_nullable := true |}, BdPrim (PInt I32) (Some [0%N]) [0%Z])].
 Proof. split; vm_compute; reflexivity. Qed.
 
 Print Assumptions C11_field_order_irrelevant.
